@@ -28,7 +28,7 @@ theorem lanczosLoop_release {k : Nat} {cols : List (List Nat)} (hM : MatOK k col
   | succ fuel ih =>
     intro st acc hwf hnone
     unfold lanczosLoop at hnone
-    rcases lanczosStep_release_ok hM hay hwf with ⟨st', hs⟩ | ⟨st', mk, hs, hwf'⟩
+    rcases lanczosStep_release_ok hM hay hwf with ⟨st', hs, _⟩ | ⟨st', mk, hs, hwf'⟩
     · rw [hs] at hnone; simp at hnone
     · rw [hs] at hnone
       simp only [] at hnone
@@ -92,5 +92,23 @@ theorem lanczosLoop_checked_unpurged {k : Nat} {cols : List (List Nat)} (hM : Ma
         · exact Or.inl ⟨st'', .succ hs hit⟩
         · exact Or.inr ⟨n + 1, st'', hist', Ss', by omega, .succ hs hit, hI, hnp⟩
     · exact Or.inr ⟨0, st, hist, Ss, by omega, .zero st, hInv, hall⟩
+
+/-- the `Y` returned by the release loop has one 64-bit word per column -/
+theorem lanczosLoop_release_y {k : Nat} {cols : List (List Nat)} (hM : MatOK k cols) {ay : List Nat}
+    (hay : BlockOK cols.length ay) (fuel : Nat) :
+    ∀ (st st' : LState) (acc its : List (Nat × List Nat × List Nat)), WFL cols.length st →
+    lanczosLoop false (qsOptimize k cols) ay fuel st acc = some (st', its) → BlockOK cols.length st'.y := by
+  induction fuel with
+  | zero => intro st st' acc its _ h; simp [lanczosLoop] at h
+  | succ fuel ih =>
+    intro st st' acc its hwf h
+    unfold lanczosLoop at h
+    rcases lanczosStep_release_ok hM hay hwf with ⟨st1, hs, hy⟩ | ⟨st1, mk, hs, hwf'⟩
+    · rw [hs] at h
+      simp only [Bool.false_and, Bool.false_eq_true, if_false, Option.some.injEq, Prod.mk.injEq] at h
+      rw [← h.1, hy]; exact hwf.yOK
+    · rw [hs] at h
+      simp only [] at h
+      exact ih st1 st' _ its hwf' h
 
 end Ymq.Gf2Small
